@@ -8,6 +8,7 @@
 from __future__ import annotations
 
 import collections
+import itertools
 import logging
 import operator
 import sys
@@ -454,7 +455,19 @@ class HelicityAmplitudeBuilder:
 
         amplitude = self.config.spin_alignment.formulate_amplitude(self.reaction)
         spin_projections = collect_spin_projections(self.reaction)
-        return PoolSum(sp.Abs(amplitude) ** 2, *spin_projections.items())
+        intensity = PoolSum(sp.Abs(amplitude) ** 2, *spin_projections.items())
+        self.__register_vanishing_amplitudes(intensity)
+        return intensity
+
+    def __register_vanishing_amplitudes(self, intensity: PoolSum) -> None:
+        """Define amplitudes for spin projections without any transition as zero.
+
+        The intensity sums over the cartesian product of all spin projections, but not
+        every combination has to be realised by a transition in the reaction.
+        """
+        for symbol in sorted(_collect_summed_amplitudes(intensity, {}), key=str):
+            if symbol not in self.__ingredients.amplitudes:
+                self.__ingredients.amplitudes[symbol] = sp.S.Zero
 
     def __register_amplitudes(self, transition_group: list[StateTransition]) -> None:
         transition_by_topology = group_by_topology(transition_group)
@@ -578,6 +591,25 @@ class HelicityAmplitudeBuilder:
         if prefactor != 1.0:
             return sp.Rational(prefactor)
         return None
+
+
+def _collect_summed_amplitudes(
+    expression: sp.Basic, pools: dict[sp.Symbol, tuple[sp.Basic, ...]]
+) -> set[sp.Indexed]:
+    """Get all amplitude symbols that appear when unfolding the `.PoolSum` instances."""
+    if isinstance(expression, PoolSum):
+        pools = {**pools, **dict(expression.indices)}
+        return _collect_summed_amplitudes(expression.expression, pools)
+    if isinstance(expression, sp.Indexed):
+        indices = sorted(expression.free_symbols & set(pools), key=str)
+        return {
+            expression.xreplace(dict(zip(indices, values)))
+            for values in itertools.product(*(pools[i] for i in indices))
+        }
+    amplitude_symbols: set[sp.Indexed] = set()
+    for arg in expression.args:
+        amplitude_symbols |= _collect_summed_amplitudes(arg, pools)
+    return amplitude_symbols
 
 
 def _perform_combinatorics(
